@@ -1072,7 +1072,9 @@ func (c *Canonicalizer) processInstruction(instr ssa.Instruction) {
 			c.scratch.WriteString(", CommaOk")
 		}
 	case *ssa.MakeInterface:
-		c.scratch.WriteString(fmt.Sprintf("MakeInterface %s, %s", sanitizeType(i.Type()), c.NormalizeOperand(i.X, instr)))
+		// The boxed value keeps its own static type as the dynamic type of the interface value:
+		// any(int32(5)) and any(int64(5)) are different values although both box const(5).
+		c.scratch.WriteString(fmt.Sprintf("MakeInterface %s, %s, From:%s", sanitizeType(i.Type()), c.NormalizeOperand(i.X, instr), sanitizeType(i.X.Type())))
 	case *ssa.ChangeType:
 		c.scratch.WriteString(fmt.Sprintf("ChangeType %s, %s", sanitizeType(i.Type()), c.NormalizeOperand(i.X, instr)))
 	case *ssa.Convert:
